@@ -273,6 +273,7 @@ def r182_merge(chk, m):
         try:
             outs = it.run_function(fn, env={'self': me, 'tokens': A.Sym('tokens'), '__me': me})
             need(not it.imprecise, 'IndexUtils.digest: %s' % it.imprecise[:2])
+            need(not it.unknown_branches, 'IndexUtils.digest: test not determined: %s' % it.unknown_branches[:2])
         except AnalysisError as e:
             chk.undecided(R, 'merge: %s' % label, str(e), chk.where(fn))
             continue
@@ -313,6 +314,7 @@ def r182_groups(chk, m):
         try:
             outs = it.run_function(fn, env={'self': me})
             need(not it.imprecise, 'IndexUtils.groups: %s' % it.imprecise[:2])
+            need(not it.unknown_branches, 'IndexUtils.groups: test not determined: %s' % it.unknown_branches[:2])
         except AnalysisError as e:
             chk.undecided(R, 'groups: %s' % label, str(e), chk.where(fn))
             continue
@@ -509,9 +511,9 @@ def r183(chk, m):
             hk = IdxHooks(m, cls, toks)
             hk.should_inline = A.private_only
             it = A.Interp(model=m, scope=fn, hooks=hk, max_iter=12, exc_edges=False, inline=2, precise_exc=True)
-            outs = it.run_function(fn, env={'tex': A.Sym('tex', truthy=True)})
-            if it.imprecise:
-                undet.append('%s: %s' % (''.join(chars.get(k, 'x') for k in ks), it.imprecise[0]))
+            outs = it.run_function(fn, env={'tex': A.Sym('tex', truthy=True), 'self.ownerDocument.userdata': {}})
+            if it.imprecise or it.unknown_branches:
+                undet.append('%s: %s' % (''.join(chars.get(k, 'x') for k in ks), (it.imprecise + it.unknown_branches)[0]))
                 continue
             got = set()
             for kind, s, v in outs:
